@@ -34,6 +34,8 @@ def families(tier):
     # part of what the previous build created is removed by hand, the next build recreates it, then clean
     q.append({'name': 'A3', 'params': dict(base, hist='BMBC', kinds=['is_file'], roles=['in/x'], targets=['o/d/g'], modes=['ok'],
                                            mut_paths=['o/d', 'o/d/g', 'o'], mut_kinds=['rmtree', 'delete']), 'weight': 1})
+    # an output is no longer produced (and may have been deleted by hand while its directories stayed)
+    q.append({'name': 'A10', 'params': dict(base, hist='BMBC', kinds=['is_dir'], mut_paths=['o/d/g', 'o/d', 'o/f'], mut_kinds=['none', 'delete', 'rmtree']), 'weight': 1})
     q.append({'name': 'P2', 'params': dict(base, hist='BBC', universe=['c', 'o', 'o/d', 'o/dx']), 'weight': 1})
     q.append({'name': 'CD', 'params': dict(base, hist='BBC', universe=['c', 'c/x', 'c/sub']), 'weight': 1})
     q.append({'name': 'CD', 'params': dict(base, hist='BMBC', universe=['c', 'c/x', 'c/sub'], mut_paths=['c/x', 'c/sub', 'c/z']), 'weight': 1})
